@@ -159,19 +159,25 @@ class NP(object):
         self._u('array')
         if isinstance(x, pysym.MemView):
             return x.f['of']            # numpy takes the buffer of a typed memoryview
-        if isinstance(x, (InArray, OutArray, Opaque)):
+        if isinstance(x, InArray):
+            return x.as_contiguous()    # np.array copies (order='K' of a 1-D strided view gives a contiguous copy)
+        if isinstance(x, (OutArray, Opaque)):
             return x
         a = _obj(x)
         return a.copy() if a is x else a
 
     def asarray(self, x, dtype=None):
+        if isinstance(x, InArray):
+            return x                    # no copy when the dtype already matches: the memory layout of the argument is kept
         return self.array(x, dtype)
 
     def ascontiguousarray(self, x, dtype=None):
         self._u('ascontiguousarray')
         if isinstance(x, pysym.MemView):
             return x.f['of']
-        if isinstance(x, (InArray, OutArray, Opaque)):
+        if isinstance(x, InArray):
+            return x.as_contiguous()
+        if isinstance(x, (OutArray, Opaque)):
             return x
         return _obj(x)
 
